@@ -37,10 +37,8 @@ func implSign(mode string, v saltpack.Version, sk []byte, pieces [][]byte, rng [
 			if e != nil {
 				return e
 			}
-			for _, p := range pieces {
-				if _, e := w.Write(p); e != nil {
-					return e
-				}
+			if e := writePieces(w, pieces); e != nil {
+				return e
 			}
 			if e := w.Close(); e != nil {
 				return e
